@@ -54,7 +54,15 @@ def run(ctx):
             mk = lambda f: {'f': f, 's': rnd.choice(['a\nb', 'a-b', 'x\n', 'A\nB', '\n', 'ab', 'a\r\nb'])}
             A = [mk(rnd.choice('mme')) for _ in range(rnd.randint(1, 4))]; B = [mk(rnd.choice('eem')) for _ in range(rnd.randint(1, 4))]
             if rnd.random() < 0.5: A = [mk('m') for _ in A]; B = [mk('e') for _ in B]
+        nomodel = False
+        if i % 12 == 9:
+            # time formatting with a format that comes from the record (the time functions are not modelled: relations only)
+            cfg = lib.new_cfg(select=['(format_time .t .f)=ft', '(parse_time .s .f)=pt', '(format_time .t "%Y")=y']); nomodel = True
+            mk = lambda: {'t': rnd.choice([0, 1, 86400, 1000000000, -1, 1.5, 1700000000]), 'f': rnd.choice(['%Y-%m-%d', '%H:%M:%S', '%Y', '%s', '%A %B', '%Y-%m-%dT%H:%M:%S%.f']),
+                          's': rnd.choice(['2020-01-02', '12:34:56', '1999', '2020-01-02T03:04:05.25', 'x'])}
+            A = [mk() for _ in range(rnd.randint(1, 5))]; B = [mk() for _ in range(rnd.randint(1, 5))]
         perm = list(A + B); rnd.shuffle(perm)
+        if nomodel: cfg = dict(cfg); cfg['nomodel'] = True
         da, db, dab = gen.stream(A), gen.stream(B), gen.stream(A + B)
         cases += [mkcase('A%d' % i, cfg, da), mkcase('B%d' % i, cfg, db), mkcase('C%d' % i, cfg, dab)]
         # per-record runs of the permuted sequence are compared through the multiset of per-record outputs
@@ -64,9 +72,9 @@ def run(ctx):
         dup = [x for v in A for x in (v, v)]
         cases.append(mkcase('E%d' % i, cfg, gen.stream(dup)))
     # the regex engine is not modelled: cases that use it run on the implementation only
-    modelled = [c for c in cases if not c['cfg'].get('cache')]
+    modelled = [c for c in cases if not c['cfg'].get('cache') and not c['cfg'].get('nomodel')]
     impl, model, mism = common.correspond(modelled)
-    impl.update(lib.run_harness([c for c in cases if c['cfg'].get('cache')]))
+    impl.update(lib.run_harness([c for c in cases if c['cfg'].get('cache') or c['cfg'].get('nomodel')]))
     # per-record outputs for the permutation / duplication relations
     singles = {}
     sc = []
